@@ -40,8 +40,11 @@ def c16(chk):
                 "sessions, local routing entry and published gossip keys are read back and TLC (TraceL.tla) "
                 "advances the set of specification states that explain the observations with the functions of "
                 "LifecycleOps.tla and judges the observation against the connections the driver holds open; "
-                "(3) token expiry measured against the wall clock with and without disconnect-on-expiry")
+                "(3) token expiry measured against the wall clock with and without disconnect-on-expiry; "
+                "(4) a network path that goes silent (relay turned into a black hole): the keep-alive must end "
+                "the connection and release registration and session within 45 s, the sibling stays")
     chk.assumptions = ["quiescence is awaited for at most 8 s", "expiry tolerance -150 ms / +1500 ms",
+                       "silent drop noticed within keep-alive interval 30 s + write timeout 10 s + 5 s",
                        "shedding is only triggered while every listener would reconnect"]
     if quick:
         model(chk, "C16-model", {"ConnE1": {"c1", "c2"}, "ConnE2": set(), "ExpConn": set(), "MaxClock": 1,
@@ -67,7 +70,7 @@ def c16(chk):
             ops[k] = ops.get(k, 0) + n
     chk.notes["executed_calls_by_action"] = ops
     chk.rule += "; distinct_nontrivial = distinct observations"
-    for need in ("Life", "Expiry"):
+    for need in ("Life", "Expiry", "Stall"):
         if ops.get(need, 0) == 0:
             raise vp.Machinery("vacuous run: no " + need)
 
